@@ -128,22 +128,18 @@ Example fde_program_ex :
 Proof. vm_compute. reflexivity. Qed.
 
 (* ---------------------------------------------------------------------------------------------- *)
-(* (4) entry_layout.
-   FULL STATEMENT OF THE PROPERTY: every written CIE/FDE has (4 or 12) + length = |entry| a multiple of
-   the address size, and the padding consists of DW_CFA_nop only.
-   The faithful model REFUTES the first half for the 64-bit format with address size >= 8
-   (entry_layout_refuted, known_findings.txt c14.f_pad64): write_nop is given word_size (8) instead of
-   the 12 bytes of the initial length. What holds for every entry is: word_size + length is a multiple
-   of a power-of-two address size; 4/12 + length is one outside the known class; the area after the
-   header decodes to exactly the supplied instructions followed by fewer than address_size nops. *)
+(* (4) entry_layout — every written CIE/FDE, in both formats (4- or 12-byte initial length), has
+   |entry| = (4 or 12) + length a multiple of a power-of-two address size; the length field holds the
+   size of the rest; the area after the header decodes to exactly the supplied instructions followed by
+   fewer than address_size DW_CFA_nop and nothing else. (The 64-bit format was padded relative to 8
+   instead of 12 until repo d2e46aa; see known_findings.txt.) *)
 Theorem entry_layout_cie : forall (dbg be eh : bool) (pos : N) (c : cie) bs,
   cie_wf c = true -> is_pow2 (c_asize c) = true ->
   cie_write dbg be eh pos c = Ok bs ->
   exists il hdr area,
     bs = il ++ hdr ++ area /\
     write_initial_length (c_fmt64 c) be (len (hdr ++ area)) = Ok il /\ len il = ilen_size (c_fmt64 c) /\
-    (word_size (c_fmt64 c) + len (hdr ++ area)) mod c_asize c = 0 /\
-    ((c_fmt64 c = false \/ c_asize c <= 4) -> len bs mod c_asize c = 0) /\
+    len bs mod c_asize c = 0 /\
     exists ds n, decode_all be area = Some (ds ++ repeat DNop n) /\ N.of_nat n < c_asize c /\
                  map (sem (c_caf c) (c_daf c)) ds = map MInsn (c_insns c).
 Proof. exact entry_layout_cie_pack. Qed.
@@ -154,23 +150,15 @@ Theorem entry_layout_fde : forall (dbg be eh : bool) (pos coff : N) (c : cie) (f
   exists il hdr area,
     bs = il ++ hdr ++ area /\
     write_initial_length (c_fmt64 c) be (len (hdr ++ area)) = Ok il /\ len il = ilen_size (c_fmt64 c) /\
-    (word_size (c_fmt64 c) + len (hdr ++ area)) mod c_asize c = 0 /\
-    ((c_fmt64 c = false \/ c_asize c <= 4) -> len bs mod c_asize c = 0) /\
+    len bs mod c_asize c = 0 /\
     exists ds n, decode_all be area = Some (ds ++ repeat DNop n) /\ N.of_nat n < c_asize c /\
                  locate 0 (map (sem (c_caf c) (c_daf c)) (ds ++ repeat DNop n)) = f_insns f.
 Proof. exact entry_layout_fde_pack. Qed.
 
-(* the known class: EVERY 64-bit-format CIE with address size >= 8 has size 4 modulo the address size *)
-Theorem entry_layout_dwarf64 : forall (dbg be eh : bool) (pos : N) (c : cie) bs,
-  cie_wf c = true -> is_pow2 (c_asize c) = true -> c_fmt64 c = true -> 8 <= c_asize c ->
-  cie_write dbg be eh pos c = Ok bs -> len bs mod c_asize c = 4.
-Proof. exact entry_layout_dwarf64_pack. Qed.
-
-Definition cie64_witness : cie := mkCie true 4 8 1 (-8) 16 None None 0 false [].
-Theorem entry_layout_refuted :
-  exists c bs, cie_wf c = true /\ is_pow2 (c_asize c) = true /\
-               cie_write true false false 0 c = Ok bs /\ len bs mod c_asize c <> 0.
-Proof. exists cie64_witness. eexists. vm_compute. repeat split. discriminate. Qed.
+Definition cie64_ex : cie := mkCie true 4 8 1 (-8) 16 None None 0 false [].
+Example entry_layout_dwarf64_ex :
+  exists bs, cie_write true false false 0 cie64_ex = Ok bs /\ len bs = 32 /\ len bs mod c_asize cie64_ex = 0.
+Proof. eexists. vm_compute. repeat split. Qed.
 
 Definition cie_ex : cie := mkCie false 1 8 1 (-8) 16 (Some (27, AConst 4660)) (Some 27) 27 true [Cfa 7 8; Offset 16 (-8)].
 Example entry_layout_ex :
@@ -238,8 +226,8 @@ Proof. vm_compute. reflexivity. Qed.
    area decodes to the initial instructions plus nop padding; every FDE tile parses to the offset of
    its CIE's tile, its address range and LSDA, and its instruction area decodes to the supplied
    instructions at their code offsets plus nop padding.
-   Hypotheses: operand typing, address sizes 1/2/4/8, the LSDA of an FDE present exactly when its CIE
-   has an lsda_encoding (lsda_ok; violated = known finding c14.f_lsda), section below 2^64.
+   Hypotheses: operand typing, address sizes 1/2/4/8, section below 2^64. (An FDE whose LSDA presence
+   disagrees with its CIE's lsda_encoding is not written at all: lsda_mismatch_is_error.)
    NOT part of the theorem: the evaluated unwind rows themselves — they are the image of the two decoded
    programs under the CFA machine, whose model (CfiRun, C06) and the reader's own parser model (CfiRd,
    C05) live on other branches; on the implementation the rows are compared by the oracle stream c14.rows. *)
@@ -267,7 +255,6 @@ Theorem fde_header_read : forall (dbg be eh : bool) (pos coff : N) (c : cie) (f 
   cie_wf c = true -> fde_wf f = true ->
   (c_asize c = 1 \/ c_asize c = 2 \/ c_asize c = 4 \/ c_asize c = 8) ->
   pos + len bs < 18446744073709551616 -> coff <= pos ->
-  lsda_ok c f = true ->
   fde_write dbg be eh pos coff c f = Ok bs ->
   exists il body insns pad,
     bs = il ++ body /\ len il = ilen_size (c_fmt64 c) /\
@@ -280,8 +267,7 @@ Proof. exact fde_header_reads. Qed.
 
 Theorem table_roundtrip : forall (dbg be eh : bool) (pos : N) (t : ftable) bs,
   Forall (fun c => cie_wf c = true /\ asz_ok (c_asize c)) (t_cies t) ->
-  Forall (fun p => fde_wf (snd p) = true /\
-                   forall c, nth_error (t_cies t) (fst p) = Some c -> lsda_ok c (snd p) = true) (t_fdes t) ->
+  Forall (fun p => fde_wf (snd p) = true) (t_fdes t) ->
   pos + len bs < 18446744073709551616 ->
   write_table dbg be eh pos t = Ok bs ->
   exists chunks,
@@ -319,39 +305,51 @@ Proof. vm_compute. split; reflexivity. Qed.
 Definition table_ex : ftable := mkTable [cie_a; cie_b] [(0%nat, fde_a 4096); (1%nat, fde_a 8192); (0%nat, fde_a 12288)].
 Example table_hyps_ex :
   Forall (fun c => cie_wf c = true /\ is_pow2 (c_asize c) = true) (t_cies table_ex) /\
-  Forall (fun p => fde_wf (snd p) = true /\
-                   exists c, nth_error (t_cies table_ex) (fst p) = Some c /\ (true = true -> lsda_ok c (snd p) = true))
-         (t_fdes table_ex) /\
+  Forall (fun p => fde_wf (snd p) = true /\ exists c, nth_error (t_cies table_ex) (fst p) = Some c) (t_fdes table_ex) /\
   exists bs, write_table true false true 0 table_ex = Ok bs /\ length bs = 96%nat.
 Proof.
   split; [repeat constructor|]. split.
-  - repeat constructor; eexists; (split; [reflexivity|intros _; reflexivity]).
+  - repeat constructor; eexists; reflexivity.
   - eexists. split; [vm_compute; reflexivity|reflexivity].
 Qed.
 Example table_roundtrip_hyps_ex :
   Forall (fun c => cie_wf c = true /\ asz_ok (c_asize c)) (t_cies table_ex) /\
-  Forall (fun p => fde_wf (snd p) = true /\
-                   forall c, nth_error (t_cies table_ex) (fst p) = Some c -> lsda_ok c (snd p) = true) (t_fdes table_ex).
+  Forall (fun p => fde_wf (snd p) = true) (t_fdes table_ex).
 Proof.
   assert (A4 : asz_ok 4) by (right; right; left; reflexivity).
   split.
   - constructor; [split; [reflexivity|exact A4]|]. constructor; [split; [reflexivity|exact A4]|constructor].
-  - constructor; [|constructor; [|constructor; [|constructor]]];
-      (split; [reflexivity|intros c H; cbn in H; injection H as <-; reflexivity]).
+  - repeat constructor.
 Qed.
 
 (* ---------------------------------------------------------------------------------------------- *)
 (* no_panic — the table writer never panics on well-typed tables whose address sizes are powers of
-   two, whose FDEs name CIEs of the table and (checked builds only) whose LSDA presence agrees with
-   the CIE; building a table panics only in a checked build on decreasing instruction offsets
-   (debug_assert in add_instruction; a release build reports InvalidFrameCodeOffset when writing). *)
+   two and whose FDEs name CIEs of the table, in both build modes; building a table panics only in a
+   checked build on decreasing instruction offsets (debug_assert in add_instruction; a release build
+   reports InvalidFrameCodeOffset when writing). *)
 Theorem no_panic_write : forall (dbg be eh : bool) (pos : N) (t : ftable),
   Forall (fun c => cie_wf c = true /\ is_pow2 (c_asize c) = true) (t_cies t) ->
-  Forall (fun p => fde_wf (snd p) = true /\
-                   exists c, nth_error (t_cies t) (fst p) = Some c /\ (dbg = true -> lsda_ok c (snd p) = true))
-         (t_fdes t) ->
+  Forall (fun p => fde_wf (snd p) = true /\ exists c, nth_error (t_cies t) (fst p) = Some c) (t_fdes t) ->
   write_table dbg be eh pos t <> Panic.
 Proof. exact write_table_np. Qed.
+
+(* an FDE whose LSDA presence disagrees with its CIE's lsda_encoding is never written and never panics:
+   once the CIE pointer and the address range have been written the result is InvalidAddress *)
+Theorem lsda_mismatch_is_error : forall (dbg be eh : bool) (pos coff : N) (c : cie) (f : fde),
+  cie_wf c = true -> is_pow2 (c_asize c) = true -> fde_wf f = true -> coff <= pos ->
+  lsda_ok c f = false ->
+  (forall bs, fde_write dbg be eh pos coff c f <> Ok bs) /\
+  fde_write dbg be eh pos coff c f <> Panic /\
+  (forall ptr addrs,
+     (if eh then let* d := chk_sub 64 dbg (pos + ilen_size (c_fmt64 c)) coff in write_udata be d 4
+      else write_udata be coff (word_size (c_fmt64 c))) = Ok ptr ->
+     (if negb (c_fde_enc c =? 0)
+      then let* a := write_eh_pointer be (pos + ilen_size (c_fmt64 c) + len ptr) (f_addr f) (c_fde_enc c) (c_asize c) in
+           let* l := write_eh_pointer_data be (f_len f) (pe_format (c_fde_enc c)) (c_asize c) in Ok (a ++ l)
+      else let* a := write_address be (f_addr f) (c_asize c) in
+           let* l := write_udata be (f_len f) (c_asize c) in Ok (a ++ l)) = Ok addrs ->
+     fde_write dbg be eh pos coff c f = Err WInvalidAddress).
+Proof. exact lsda_mismatch_is_error_pack. Qed.
 
 Theorem no_panic_build : forall (dbg : bool) (ops : list bop) t ids,
   (dbg = true -> ops_sorted ops = true) -> build dbg t ids ops <> Panic.
@@ -366,14 +364,17 @@ Proof. vm_compute. split; reflexivity. Qed.
 Example panic_ex_address_size :
   build_and_write true false false 0 [BAddCie (mkCie false 1 3 1 1 8 None None 0 false []); BAddFde 0 (fde_a 0)] = Panic.
 Proof. vm_compute. reflexivity. Qed.
-Example panic_ex_lsda :
-  build_and_write true false false 0 [BAddCie cie_b; BAddFde 0 (mkFde (AConst 0) 8 (Some (AConst 9)) [])] = Panic.
-Proof. vm_compute. reflexivity. Qed.
+Example lsda_mismatch_ex :
+  build_and_write true false false 0 [BAddCie cie_b; BAddFde 0 (mkFde (AConst 0) 8 (Some (AConst 9)) [])] = Err WInvalidAddress
+  /\ build_and_write false false false 0 [BAddCie cie_a; BAddFde 0 (mkFde (AConst 0) 8 (Some (AConst 9)) [])] = Err WInvalidAddress
+  /\ build_and_write false false false 0
+       [BAddCie (mkCie false 1 4 1 1 8 None (Some 0) 0 false []); BAddFde 0 (fde_a 0)] = Err WInvalidAddress.
+Proof. vm_compute. repeat split. Qed.
 
 (* pins *)
 Check factoring_exact. Check factoring_exact_code. Check advance_loc_forms. Check advance_loc_encodings.
 Check insn_write_read. Check fde_program_read. Check cie_program_read.
-Check entry_layout_cie. Check entry_layout_fde. Check entry_layout_dwarf64. Check entry_layout_refuted.
+Check entry_layout_cie. Check entry_layout_fde.
 Check cie_eqb_eq. Check cie_dedup_ids. Check cie_dedup_emission. Check plan_spec.
 Check pointer_read_back. Check cie_header_read. Check fde_header_read. Check table_roundtrip.
-Check table_roundtrip_partial. Check no_panic_write. Check no_panic_build.
+Check table_roundtrip_partial. Check no_panic_write. Check lsda_mismatch_is_error. Check no_panic_build.
